@@ -1631,7 +1631,7 @@ func runC09(r *hx.Result, cfg hx.Config) {
 	} else {
 		r.Extra["batch_sizes"] = "maxkeys=8 maxids=32 (Gen/Consts.v)"
 	}
-	nq, nc, nm, nmr, ncrashRounds := 3, 10, 14, 5, 1
+	nq, nc, nm, nmr, ncrashRounds := 3, 8, 13, 4, 1
 	if cfg.Tier == "thorough" {
 		nq, nc, nm, nmr, ncrashRounds = 25, 150, 300, 60, 4
 	}
